@@ -8,7 +8,10 @@ SOURCE_COMMITS = ["bc49a1c", "e3a7f92", "9ed7728", "007ee91", "c29e4c1", "17a47e
 NOTES = ("Every check: (1) rebuilds the Coq development incrementally and re-checks coq/Props/<id>.v (grep gate for Admitted/Axiom/...); "
          "(2) runs physt from /repo/src and the extracted model on the same seeded cases; (3) applies the extracted check_<id> to the "
          "implementation's observation. VIOLATION lines carry a replay file; 'no-failing-input-found' is appended when only the "
-         "correspondence or a proof broke. Known genuine defects are listed in known_findings.json.")
+         "correspondence or a proof broke. Known genuine defects are listed in known_findings.json. For C04 C05 C06 C10 C14 C20 step (1) also "
+         "re-translates the scalar pure-Python kernels of the current /repo/src/physt into Gallina (tools/pytrans.py -> coq/Gen) and re-checks "
+         "coq/Props/<id>_tie.v: theorems that the regenerated functions equal the models for all inputs (DESIGN.md 0.9); C04 additionally "
+         "compares the translated code, evaluated in binary64 by vm_compute, with physt bit for bit on random histories.")
 NOT_CLAIMED = {
  "C01": dict(
    technique="Coq proof of refinement (sort+searchsorted sweep = filter-and-sum, accounting) + extracted-model correspondence",
